@@ -3,6 +3,7 @@ package c04
 
 import (
 	"context"
+	"errors"
 	"fmt"
 	"strings"
 
@@ -327,6 +328,76 @@ func subsets(ops []string, maxK int) [][]string {
 	return out
 }
 
+// queuedScenario: one RPC is in flight with a silent peer and stays so; a second call on the same
+// connection (from another goroutine, with its own context) waits for its turn; that context is
+// cancelled. The queued call must return with its context's error - without any cooperation from
+// the peer, the transport or the first RPC - and the first RPC must be undisturbed.
+func queuedScenario(soft bool, first, second, variant string) *mc.Scenario {
+	cfg := wl.Config{Soft: soft, Pipe: tr.Options{Cap: -1}}
+	name := fmt.Sprintf("cancel-queued[%s | rpc 1 %s in flight with a silent peer ; rpc 2 %s queued behind it, its own context cancelled %s]", cfg, first, second, variant)
+	body := func() {
+		env := wl.NewEnv(cfg, handlerFor("silent"))
+		f := map[string]any{}
+		env.Facts["q"] = f
+		ctx1, cancel1 := context.WithCancel(context.Background())
+		firstDone := false
+		vs.Go("first", func() {
+			in, out := enc.Payload('a', 0, 0, enc.MinPayload), []byte(nil)
+			if first == "invoke" {
+				_ = env.Conn.Invoke(ctx1, "/w", enc.Bytes{}, &in, &out)
+			} else if s, err := env.Conn.NewStream(ctx1, "/w", enc.Bytes{}); err == nil {
+				_ = s.MsgRecv(&out, enc.Bytes{})
+			}
+			firstDone = true
+		})
+		sched.Quiesce() // rpc 1 is in flight: its handler is running and silent
+		ctx2, cancel2 := context.WithCancel(context.Background())
+		var err2 error
+		secondDone := false
+		vs.Go("second", func() {
+			in, out := enc.Payload('b', 0, 0, enc.MinPayload), []byte(nil)
+			if second == "invoke" {
+				err2 = env.Conn.Invoke(ctx2, "/w2", enc.Bytes{}, &in, &out)
+			} else {
+				_, err2 = env.Conn.NewStream(ctx2, "/w2", enc.Bytes{})
+			}
+			secondDone = true
+		})
+		if variant == "q" {
+			sched.Quiesce()
+			wl.Cancel(cancel2)
+		} else {
+			vs.Go("canceller", func() { wl.Cancel(cancel2) })
+		}
+		sched.Quiesce()
+		switch {
+		case !secondDone:
+			f["fail"] = "(1) the queued call is still blocked after its context was cancelled; blocked=" + wl.BlockedSummary(sched.BlockedNow())
+		case err2 == nil:
+			f["fail"] = "the queued call succeeded although rpc 1 still occupies the connection"
+		case !errors.Is(err2, context.Canceled):
+			f["fail"] = fmt.Sprintf("(2) the queued call must report its context's error, got %v", err2)
+		case firstDone && !env.ConnClosed():
+			f["fail"] = "rpc 1 ended although only rpc 2's context was cancelled"
+		}
+		sched.Observef("second=%v first=%v", secondDone, firstDone)
+		sched.Freeze()
+		wl.Cancel(cancel1)
+		env.Teardown()
+	}
+	check := func(e *sched.Exec) string {
+		if m := wl.Basic(e); m != "" {
+			return m
+		}
+		f, _ := wl.GetEnv(e).Facts["q"].(map[string]any)
+		if m, ok := f["fail"]; ok {
+			return m.(string)
+		}
+		return ""
+	}
+	return &mc.Scenario{Name: name, Body: body, Check: check, Model: sched.Deviation, NoCache: true}
+}
+
 func basePlans(tier string) []mc.Plan {
 	var ps []mc.Plan
 	maxK := 2
@@ -365,6 +436,15 @@ func basePlans(tier string) []mc.Plan {
 						}
 						ps = append(ps, mc.Plan{Scen: scenario(cfg, spec{stalled: stalled, handler: h, ops: ops, variant: v}), Bounds: bounds, Split: len(bounds) > 2})
 					}
+				}
+			}
+		}
+	}
+	for _, soft := range []bool{false, true} {
+		for _, first := range []string{"invoke", "stream"} {
+			for _, second := range []string{"invoke", "newstream"} {
+				for _, v := range []string{"q", "r"} {
+					ps = append(ps, mc.Plan{Scen: queuedScenario(soft, first, second, v), Bounds: []int{0, 1}})
 				}
 			}
 		}
